@@ -46,6 +46,8 @@ def thread_of(action):
         return "main"
     if name[0] == "C":
         return "cb"
+    if name[0] == "A":
+        return "adder"
     return arg
 
 
@@ -99,11 +101,13 @@ def run_scenario(rng, chooser_kind, order=None, params=None):
         senders=["s1", "s2", "s3"][:rng.randint(1, 3)],
         nind=rng.randint(1, 3), ncb=rng.randint(1, 2),
         maxq=rng.choice([0, 0, 1, 2]), raising_cb=rng.choice([0, 0, 1, 2]),
-        restart=rng.random() < 0.3, slow_steps=rng.choice([1, 1, 2, 4]))
+        restart=rng.random() < 0.3, slow_steps=rng.choice([1, 1, 2, 4]),
+        raise_kind=rng.choice(S.RAISE_KINDS), late_cb=rng.random() < 0.3)
     if p["raising_cb"] > p["ncb"]:
         p["raising_cb"] = 0
     sc = S.Scenario(**p)
-    names = ["main", "cb"] + p["senders"]
+    names = ["main", "cb"] + p["senders"] + \
+        (["adder"] if p.get("late_cb") else [])
     if chooser_kind == "guided":
         ch = GuidedChooser(rng, order)
     elif chooser_kind == "pct":
@@ -129,7 +133,12 @@ def free_port():
     return port
 
 
-def run_real(rng, nsenders, nind, ncb, maxq, slow):
+def run_real(rng, nsenders, nind, ncb, maxq, slow, raising_cb=0,
+             raise_kind="msg", late_after=None):
+    """`raising_cb`: number of the callback that raises (`raise_kind`: with
+    or without exception arguments).  `late_after`: if not None, one sender
+    sends sequentially and after that many acknowledged indications the
+    application registers callback ncb+1 with add_callback()."""
     import pywbem
     events = []
     lock = threading.Lock()
@@ -148,7 +157,10 @@ def run_real(rng, nsenders, nind, ncb, maxq, slow):
             def cb(ind, host):
                 if slow:
                     time.sleep(slow)
-                emit(ev="deliver", c=c, s=ind["Sender"], n=int(ind["Seq"]))
+                emit(ev="deliver", c=c, s=ind["Sender"], n=int(ind["Seq"]),
+                     raised=(c == raising_cb))
+                if c == raising_cb:
+                    raise S.make_exception(raise_kind, c)
             cb.__name__ = "cb%d" % c
             return cb
         for c in range(1, ncb + 1):
@@ -165,6 +177,13 @@ def run_real(rng, nsenders, nind, ncb, maxq, slow):
 
     def sender(s):
         for n in range(1, nind + 1):
+            if late_after is not None and n == late_after + 1:
+                try:
+                    listener.add_callback(mk(ncb + 1))
+                    aexc = ""
+                except Exception as e:  # noqa
+                    aexc = type(e).__name__
+                emit(ev="add_callback", c=ncb + 1, exc=aexc)
             emit(ev="req", s=s, n=n)
             try:
                 conn = http.client.HTTPConnection("127.0.0.1", port, timeout=10)
@@ -189,6 +208,9 @@ def run_real(rng, nsenders, nind, ncb, maxq, slow):
            for i in range(nsenders)]
     for t in ths:
         t.start()
+    if late_after is not None:
+        for t in ths:
+            t.join(30)
     time.sleep(rng.choice([0.0, 0.01, 0.05]))
     # stop() under a watchdog: a stop() that never returns must end up as an
     # event of the trace, not as a hanging check
@@ -225,7 +247,9 @@ def run_real(rng, nsenders, nind, ncb, maxq, slow):
          server_closed=released)
     emit(ev="end", outcome="done")
     return dict(params=dict(nsenders=nsenders, nind=nind, ncb=ncb, maxq=maxq,
-                            slow=slow), outcome="done", events=norm(events),
+                            slow=slow, raising_cb=raising_cb,
+                            raise_kind=raise_kind, late_after=late_after),
+                outcome="done", events=norm(events),
                 schedule=[], chooser="os")
 
 
@@ -354,8 +378,14 @@ def run(ctx):
     ctx.tlc("Listener", "Listener.cfg", coverage=False,
             label="all interleavings, 2 senders x 2 indications x 2 callbacks, "
             "queue bound 1: safety + Termination")
+    ctx.tlc("Listener", "ListenerLate.cfg", coverage=False,
+            label="all interleavings, 2 senders x 1 indication, 1 callback "
+            "plus one registered by add_callback() while the listener runs")
     sens = []
     for cfg, inv, what in (
+            ("ListenerLateSnapshot.cfg", "ExactlyOnce",
+             "callback thread works on a copy of the callback list taken "
+             "when it starts"),
             ("ListenerLegacy.cfg", "StopClean",
              "callback loop re-reads self._ind_queue (code before the fix)"),
             ("ListenerDeliveryFirst.cfg", "NoHandlerCrash",
@@ -373,6 +403,8 @@ def run(ctx):
                 label="2 senders x 3 indications x 1 callback, queue bound 2")
         ctx.tlc("Listener", "ListenerRestart.cfg", timeout=3000,
                 label="2x2x1 with restart (second start/stop)")
+        ctx.tlc("Listener", "ListenerLateBig.cfg", timeout=3000,
+                label="2 senders x 2 indications, 1 callback + 1 late")
     runs = []
     _, behs = ctx.simulate_actions("Listener", "ListenerSim.cfg",
                                    60 if quick else 1500, 80,
@@ -382,8 +414,20 @@ def run(ctx):
         runs.append(run_scenario(ctx.rng, "guided", order, dict(
             senders=["s1", "s2"], nind=2, ncb=2,
             maxq=ctx.rng.choice([0, 1]), raising_cb=ctx.rng.choice([0, 1]),
-            restart=False, slow_steps=1)))
-    ctx.extra["tlc_schedules_replayed"] = len(behs)
+            restart=False, slow_steps=1,
+            raise_kind=ctx.rng.choice(S.RAISE_KINDS))))
+    _, behs2 = ctx.simulate_actions("Listener", "ListenerSimLate.cfg",
+                                    40 if quick else 800, 80,
+                                    label="schedules with a late "
+                                    "add_callback() from TLC behaviours")
+    for acts in behs2:
+        order = [thread_of(a) for a in acts]
+        runs.append(run_scenario(ctx.rng, "guided", order, dict(
+            senders=["s1", "s2"], nind=2, ncb=1,
+            maxq=ctx.rng.choice([0, 1]), raising_cb=ctx.rng.choice([0, 1]),
+            restart=False, slow_steps=1, late_cb=True,
+            raise_kind=ctx.rng.choice(S.RAISE_KINDS))))
+    ctx.extra["tlc_schedules_replayed"] = len(behs) + len(behs2)
     n_pct = 250 if quick else 6000
     for i in range(n_pct):
         runs.append(run_scenario(ctx.rng, "pct" if i % 2 else "random"))
@@ -395,7 +439,15 @@ def run(ctx):
         runs.append(run_real(ctx.rng, ctx.rng.randint(1, 3),
                              ctx.rng.randint(1, 3), ctx.rng.randint(1, 2),
                              ctx.rng.choice([0, 1, 2]),
-                             ctx.rng.choice([0, 0, 0.02])))
+                             ctx.rng.choice([0, 0, 0.02]),
+                             raising_cb=ctx.rng.choice([0, 1, 2]),
+                             raise_kind=ctx.rng.choice(S.RAISE_KINDS)))
+    for i in range(2 if quick else 20):
+        # sequential sender, callback registered while the listener runs
+        runs.append(run_real(ctx.rng, 1, 3, ctx.rng.randint(1, 2), 0, 0,
+                             raising_cb=ctx.rng.choice([0, 1]),
+                             raise_kind=ctx.rng.choice(S.RAISE_KINDS),
+                             late_after=ctx.rng.randint(0, 2)))
     mach = [r for r in runs if str(r["outcome"]).startswith("machinery")]
     if mach:
         raise vlib.MachineryError("scheduler failure: %s" % mach[0]["outcome"])
